@@ -36,6 +36,9 @@ def ctor_cases(ctx, drv, pending):
             keys.append(extra)
         ctx.rng.shuffle(keys)
         kw = {k: gen.dyadic(ctx.rng) if kind == "vector" else abs(gen.dyadic(ctx.rng)) + 1 for k in keys}
+        for k in keys:
+            if ctx.rng.random() < 0.25:
+                kw[k] = F(0)          # zero is a value like any other (a zero variance is not "unset")
         cls = (common.named_vector if kind == "vector" else common.named_covariance)("X", [sympy.Symbol(x) for x in L])
         case = {"kind": kind, "L": L, "kw": {k: core.frac_str(v) for k, v in kw.items()}}
         ctx.case(case, nontrivial=len(L) >= 2)
@@ -188,6 +191,14 @@ def run(ctx):
         for _ in range(2):
             m = gen.gen_renaming(ctx.rng, d)
             twins.append(("rename", m))
+        # partial renaming: ONE symbol gets a new name that moves it to the other end of the sort order, all other
+        # names (and therefore most statements) stay textually the same
+        ident = {s.name: s.name for s in d.all_symbols()}
+        victim = ctx.rng.choice([s.name for s in d.state])
+        for cand in ("zzq9", "AAq9"):
+            if cand not in ident and sorted([x for x in ident if x != victim] + [cand]).index(cand) != sorted(ident).index(victim):
+                twins.append(("rename-one", dict(ident, **{victim: cand})))
+                break
         twins.append(("redeclare", {s.name: s.name for s in d.all_symbols()}))
         for kind, m in twins:
             d2 = d.renamed(m)
